@@ -442,6 +442,9 @@ func (w *frsWalk) fieldContents(fv *types.Var, at *ssa.FieldAddr) {
 				owner = n.Obj().Name() + "." + fv.Name()
 			}
 		}
+		if len(w.e.ix.stores[fv]) == 0 {
+			set.add(frsLeaf{kind: frsForeign, what: "field " + owner + ", which no function of the module stores to (its contents are not visible)", pos: fv.Pos()})
+		}
 		for _, st := range w.e.ix.stores[fv] {
 			fn := st.at.Parent()
 			for _, l := range w.e.Origins(st.val).Leaves() {
@@ -1192,4 +1195,104 @@ func frsReachesAvoiding(from, to ssa.Instruction, avoid []ssa.Instruction) bool 
 		}
 	}
 	return false
+}
+
+// ---- protected writes: primitive sinks, and the module functions that become writers by forwarding
+
+// frsSink: instruction `at` of fn writes memory of the protected kind through dest.
+type frsSink struct {
+	fn   *ssa.Function
+	at   ssa.Instruction
+	dest ssa.Value
+	how  string
+}
+
+type frsSinkID struct {
+	at   ssa.Instruction
+	dest ssa.Value
+}
+
+// ProtectedSinks closes a set of primitive sinks (given per instruction by prim) under forwarding: a
+// module function whose sink destination may be (what) its own parameter i (holds) is a writer of
+// parameter i, whatever the static type of the parameter (interface{}, a struct value, a slice), and
+// every static call of it is a sink for the argument in that position. Returns all sinks (primitive
+// ones first, each group in the index's function order) and the writer table.
+//
+// forward(f, p) says whether a write through f's own parameter p is the callers' business (f is a
+// destination-passing helper all of whose callers are visible); when it is not, the rule reports
+// the write inside f and the call sites of f are not sinks.
+func (e *frsEngine) ProtectedSinks(prim func(f *ssa.Function, in ssa.Instruction) []frsSink, forward func(f *ssa.Function, p *ssa.Parameter) bool) ([]frsSink, map[*ssa.Function]map[int]bool) {
+	var prims []frsSink
+	for _, f := range e.ix.funcs {
+		for _, b := range f.Blocks {
+			for _, in := range b.Instrs {
+				prims = append(prims, prim(f, in)...)
+			}
+		}
+	}
+	primAt := map[frsSinkID]bool{}
+	for _, s := range prims {
+		primAt[frsSinkID{s.at, s.dest}] = true
+	}
+	memo := map[ssa.Value]*frsSet{}
+	origins := func(v ssa.Value) *frsSet {
+		if o, ok := memo[v]; ok {
+			return o
+		}
+		o := e.Origins(v)
+		memo[v] = o
+		return o
+	}
+	W := map[*ssa.Function]map[int]bool{}
+	var all []frsSink
+	for round := 0; round < 12; round++ {
+		all = append([]frsSink{}, prims...)
+		if len(W) > 0 {
+			for _, f := range e.ix.funcs {
+				for _, b := range f.Blocks {
+					for _, in := range b.Instrs {
+						ci, ok := in.(ssa.CallInstruction)
+						if !ok {
+							continue
+						}
+						g := ci.Common().StaticCallee()
+						if g == nil || W[g] == nil {
+							continue
+						}
+						var js []int
+						for j := range W[g] {
+							js = append(js, j)
+						}
+						sort.Ints(js)
+						for _, j := range js {
+							if args := ci.Common().Args; j < len(args) && !primAt[frsSinkID{in, args[j]}] {
+								all = append(all, frsSink{f, in, args[j], maFnName(g)})
+							}
+						}
+					}
+				}
+			}
+		}
+		changed := false
+		for _, s := range all {
+			for _, l := range origins(s.dest).Leaves() {
+				if l.kind != frsParam || !forward(s.fn, l.par) {
+					continue
+				}
+				if i := frsParamIndex(s.fn, l.par); i >= 0 {
+					if W[s.fn] == nil {
+						W[s.fn] = map[int]bool{}
+					}
+					if !W[s.fn][i] {
+						W[s.fn][i] = true
+						changed = true
+					}
+				}
+			}
+		}
+		if !changed {
+			break
+		}
+	}
+	return all, W
 }
